@@ -1189,6 +1189,14 @@ func (p *BinaryProtocol) ReadBaseTypeWithDesc(desc *proto.TypeDescriptor, hasMes
 		}
 		// read repeat until sumLength equals MessageLength
 		start := p.Read
+		if messageLength < 0 || start+messageLength > len(p.Buf) {
+			return nil, errDecodeField
+		}
+		// bound the buffer by the message end, so that the elements of a trailing
+		// repeated/map field are not looked for beyond the enclosing message
+		whole := p.Buf
+		p.Buf = whole[:start+messageLength]
+		defer func() { p.Buf = whole }()
 		for p.Read < start+messageLength {
 			fieldNumber, wireType, tagLen, fieldTagErr := p.ConsumeTagWithoutMove()
 			if fieldTagErr != nil {
